@@ -12,7 +12,7 @@ from .common import *  # noqa
 from .vharness import *  # noqa
 from mirsym.models import new_string, ListIter, as_sstr
 
-WS = (32, 9)
+WS = (32, 9, 11)       # space, tab, vertical tab (whitespace for str::trim, not for the *_ascii variants)
 
 
 class Layout:
